@@ -324,7 +324,7 @@ fn static_of(e: &E) -> Option<Result<StaticOk, (String, String)>> {
 
 fn dyn_of<D: Subject + FrameCount>(e: &E, input: &V) -> Option<Result<usize, (String, String)>> {
     let src = print(e)?;
-    match guard(|| conform::<D>(&src, input, 20_000)) {
+    match guard(|| conform::<D>(&src, input, 3_000)) {
         Ok(r) => r,
         Err(p) => Some(Err((format!("panic[{}]", p), String::new()))),
     }
@@ -368,7 +368,7 @@ impl Property for C06 {
     }
     fn size(&self, tier: Tier) -> u64 {
         let s = spaces(tier);
-        s.t1.len() + s.t2.len() + s.t3.len()
+        s.total()
     }
     fn describe(&self, tier: Tier, idx: u64) -> String {
         let (c, i) = locate(tier, idx);
@@ -399,7 +399,13 @@ impl Property for C06 {
                 cx.violation(&format!("static/{}", kind), &wsrc.replace('\n', "\\n"), json!({"mode": "static", "src": wsrc, "detail": det}));
             }
         }
-        for iname in ["5", "(:a = 1, :b = 2)"] {
+        // the loop bodies of T4 do not look at the program input; bodies that never end (reference fuel) are not run
+        if c.name == "T4" && !crate::props::c01::ref_terminates(&e) {
+            cx.count("t4_never_ending_bodies_not_run", 1);
+            return;
+        }
+        let inputs: &[&str] = if c.name == "T4" { &["5"] } else { &["5", "(:a = 1, :b = 2)"] };
+        for iname in inputs.iter().cloned() {
             let input = input_by_name(iname);
             dyn_check::<SData>(cx, &e, iname, &input);
             dyn_check::<BData>(cx, &e, iname, &input);
@@ -420,7 +426,7 @@ impl Property for C06 {
             let iname = d["input"].as_str().unwrap_or("5").to_string();
             let input = input_by_name(&iname);
             let which = d["impl"].as_str().unwrap_or("simple");
-            let r = if which == "simple" { guard(|| conform::<SData>(&src, &input, 20_000)) } else { guard(|| conform::<BData>(&src, &input, 20_000)) };
+            let r = if which == "simple" { guard(|| conform::<SData>(&src, &input, 3_000)) } else { guard(|| conform::<BData>(&src, &input, 3_000)) };
             if let Ok(Some(Err((kind, det)))) = r {
                 cx.violation(&format!("dynamic/{}", kind), &format!("{} | {} | $={}", which, src.replace('\n', "\\n"), iname), json!({"mode": "dynamic", "impl": which, "src": src, "input": iname, "detail": det}));
             }
@@ -430,8 +436,8 @@ impl Property for C06 {
         let s = spaces(tier);
         Meta {
             rule: format!(
-                "every program of the C01 corpora ({} + {} + {} programs): static = worklist search of all abstract states (pc, operand depth, side-effect depth) reachable from the program entry and from every expression constant over the real instruction stream, invariants depth>=operand need, one depth per pc, EndExpression at depth exactly 1 outside side effects; dynamic = execution on SimpleGarnishData and BasicGarnishData with inputs 5 and (:a = 1, :b = 2), after every real step the observed operand/value/frame depths equal the abstract model's prediction and the run ends balanced; reapply loops iterate 0..4 times. Non-trivial = statically balanced program with at least one operator.",
-                s.t1.len(), s.t2.len(), s.t3.len()
+                "every program of the C01 corpora ({} + {} + {} + {} reapply-loop + {} call-nesting programs): static = worklist search of all abstract states (pc, operand depth, side-effect depth) reachable from the program entry and from every expression constant over the real instruction stream, invariants depth>=operand need, one depth per pc, EndExpression at depth exactly 1 outside side effects; dynamic = execution on SimpleGarnishData and BasicGarnishData with inputs 5 and (:a = 1, :b = 2), after every real step the observed operand/value/frame depths equal the abstract model's prediction and the run ends balanced; reapply loops iterate 0..4 times (T3) and as often as their guards allow (T4); a run that has not ended after 3 000 steps is not judged. Non-trivial = statically balanced program with at least one operator.",
+                s.t1.len(), s.t2.len(), s.t3.len(), s.t4.len(), s.t5.len()
             ),
             assumptions: vec![
                 "the abstract model is the stack-effect table in engine/src/props/c06.rs (DESIGN.md appendix B); it is bound to the code by step-wise conformance: traces_validated_against_impl counts executions in which every real step matched the table".into(),
